@@ -42,6 +42,7 @@ LoadX(prog, dyn, q) ==
    k |-> l.k, ans |-> l.ans, ball |-> l.ball, lh |-> l.lh, out |-> l.out, gv |-> l.gv, ve |-> l.ve,
    cl |-> <<>>,          \* cl[u]: how often the cleanup of setup_call_cleanup instance u was started
    unspec |-> FALSE,
+   snap |-> EmptyStore,  \* store recorded by the marker goal '$snap' (compared by '$chk')
    nested |-> FALSE]     \* classification only: a cleanup entry was removed by a cut or by failure while the entry directly
                          \* below it is another cleanup entry whose goal is still running
 
@@ -183,6 +184,10 @@ StepX(m) ==
   ELSE IF IsF(g, "$scc_markf", 1) THEN      \* the entry has just been popped by backtracking
        [cont EXCEPT !.cl[g.a[1].i] = @ + 1, !.nested = @ \/ (h0 >= 1 /\ m.cps[h0].kind = "scc")]
   ELSE IF IsA(g, "$unspec") THEN [cont EXCEPT !.unspec = TRUE]
+  (* marker goals (facts that do nothing in the real system): '$chk' demands that the store - bindings,  *)
+  (* backtrackable globals, suspended goals, disequalities - is exactly the one recorded by '$snap'     *)
+  ELSE IF IsA(g, "$snap") THEN [cont EXCEPT !.snap = m.st]
+  ELSE IF IsA(g, "$chk") THEN IF m.st = m.snap THEN cont ELSE Finish(m0, "specbug")
   ELSE IF IsF(g, "atom_length", 2) THEN
        LET x == Deref(m.st, g.a[1])
            n == Deref(m.st, g.a[2])
